@@ -1,8 +1,10 @@
-(* C14 after DIFFERENT histories on the two sides, part 3: refutations, witnesses, tests.
+(* C14 after DIFFERENT histories on the two sides, part 6: witnesses, refutations, tests, about
+   the checker as it is now (its known-finding class for the content clauses is k7c_shape).
 
-   D2_refuted / D1_refuted   THE K7 CLASS IS DRAWN TOO NARROWLY.  An equal pair inside every
-       hypothesis (a == b, every cache id once, class `cls`, names determine contents) with
-       k7_shape = false whose verdict after different histories is 15 (and 16): not 0, not 57.
+   old_class_too_narrow / D1_old_class_refuted   the reason the checker's class was widened.
+       An equal pair inside every hypothesis (a == b, every cache id once, class `cls`, names
+       determine contents) OUTSIDE the former class k7_shape whose strict content clause 5 (6)
+       fails after different histories:
          pad_tree i = Concat [ Original "x\n" g ;
                                Cached_i (Concat [ SourceMapSource "ab" (sources [s1], no contents) ;
                                                   Original "x\n" g ]) ]
@@ -13,17 +15,15 @@
        already (index 0), so s1 gets index 1 there, behind every content: cold its map() has
        sourcesContent ["x\n"] (s1: absent), warm ["x\n"; ""] (s1: empty).  Same "absent vs
        empty" padding as K7, but produced inside the cached map of a CachedSource that DOES
-       map chunks.  The absent = empty comparison of chk_C13 accepts the pair
-       (pad_absent_is_empty, an instance of EqDiffChk.D_absent_is_empty).
-   k7w_shape / k7s_shape (EqDiffAnns.v) / k7c_shape (EqDiffStrict.v)   widenings of k7_shape
-       that cover it ("the wrapped source announces a file without content in front of a file
-       with content"); outside k7s_shape = k7c_shape the verdict is 0 (EqDiffStrict.D2_strict,
-       D2_strict_c); a recorded brute-force search (k7w_covers_sample) finds no failure outside
-       k7w_shape and no difference between the three.
-   D3_k7_nonempty   the K7 class really yields 57.
-   D4_*   non-vacuity: caches, k7_shape false, different histories, verdict 0.
-   k7_present_instance   a tree INSIDE the K7 class on which the strict checker provably answers 0
-       after any two histories (instance of EqDiffPresent.D2_present).
+       map chunks.  It is inside k7c_shape (content_gap): the verdict is 57.  The absent = empty
+       comparison of chk_C13 accepts the pair (pad_absent_is_empty).
+   class_needed_pad, class_needed_k7   the class of D1_final is inhabited and yields 57 (so
+       "verdict 0" without the hypothesis k7c_shape a = false is false: D2_needs_class).
+   k7c_covers_sample   a recorded brute-force search: verdict 0 or (k7c_shape and 57), and the
+       spellings k7w_shape ("maps no chunk"), k7s_shape, k7c_shape of the class coincide.
+   D4_*   non-vacuity: caches, outside the class, different histories, verdict 0.
+   k7_present_instance   a tree INSIDE the class on which the checker provably answers 0 after
+       any two histories (instance of EqDiffPresent.D2_present).
    consistency_needed   `consistentb (decl a)` cannot be dropped from D_absent_is_empty. *)
 From RS Require Import Base.Prelude Base.Text Rope.RopeModel Codec.Vlq Codec.CodecSpec
   Stream.Types Stream.Leaves Stream.Concat Stream.Replace Stream.Combined Stream.Tree
@@ -64,14 +64,25 @@ Proof. vm_compute. reflexivity. Qed.
 Example pad_tree_eq : src_eqb (pad_tree 1) (pad_tree 2) = true.
 Proof. vm_compute. reflexivity. Qed.
 
+Example pad_tree_class (i : N) :
+  k7_shape (pad_tree i) = false /\ k7c_shape (pad_tree i) = true /\
+  k7w_shape (pad_tree i) = true /\ k7s_shape (pad_tree i) = true.
+Proof. vm_compute. repeat split; reflexivity. Qed.
+
 Example pad_verdicts :
-  chk_C14_pair (pad_tree 1) (pad_tree 2) (api_pair (pad_tree 1) [OMap true] (pad_tree 2) []) = 15 /\
-  chk_C14_pair (pad_tree 1) (pad_tree 2) (api_pair (pad_tree 1) [OMap false] (pad_tree 2) []) = 16 /\
-  chk_C14_pair (pad_tree 1) (pad_tree 2) (api_pair (pad_tree 1) [OStream true true] (pad_tree 2) []) = 15 /\
-  chk_C14_pair (pad_tree 1) (pad_tree 2) (api_pair (pad_tree 1) [OMap true] (pad_tree 2) [OStream true false]) = 15 /\
+  chk_C14_pair (pad_tree 1) (pad_tree 2) (api_pair (pad_tree 1) [OMap true] (pad_tree 2) []) = 57 /\
+  chk_C14_pair (pad_tree 1) (pad_tree 2) (api_pair (pad_tree 1) [OMap false] (pad_tree 2) []) = 57 /\
+  chk_C14_pair (pad_tree 1) (pad_tree 2) (api_pair (pad_tree 1) [OStream true true] (pad_tree 2) []) = 57 /\
+  chk_C14_pair (pad_tree 1) (pad_tree 2) (api_pair (pad_tree 1) [OMap true] (pad_tree 2) [OStream true false]) = 57 /\
   chk_C14_pair (pad_tree 1) (pad_tree 2) (api_pair (pad_tree 1) [] (pad_tree 2) []) = 0 /\
   chk_C14_pair (pad_tree 1) (pad_tree 2) (api_pair (pad_tree 1) [OMap true] (pad_tree 2) [OMap true]) = 0.
 Proof. vm_compute. repeat split; reflexivity. Qed.
+
+(* the clauses that fail: 5 (map with columns), 6 (without) *)
+Example pad_clauses :
+  obs_equiv (po_a (api_pair (pad_tree 1) [OMap true] (pad_tree 2) [])) (po_b (api_pair (pad_tree 1) [OMap true] (pad_tree 2) [])) = 5 /\
+  obs_equiv (po_a (api_pair (pad_tree 1) [OMap false] (pad_tree 2) [])) (po_b (api_pair (pad_tree 1) [OMap false] (pad_tree 2) [])) = 6.
+Proof. vm_compute. split; reflexivity. Qed.
 
 (* the two maps: the same sources, sourcesContent ["x\n"] against ["x\n"; ""] *)
 Example pad_maps :
@@ -80,11 +91,13 @@ Example pad_maps :
   = [([[103]; [115; 49]], [[120; 10]]); ([[103]; [115; 49]], [[120; 10]; []])].
 Proof. vm_compute. reflexivity. Qed.
 
-(* D2 is false: outside the K7 class, inside every other hypothesis, the verdict is not 0 *)
-Theorem D2_refuted : exists (a b : src) (opsa opsb : list hop),
+(* outside the FORMER class k7_shape, inside every other hypothesis, the strict content clause
+   fails; the pair is inside the class the checker tests now, and the verdict is the known finding *)
+Theorem old_class_too_narrow : exists (a b : src) (opsa opsb : list hop),
   src_eqb a b = true /\ ColdCache.ids_distinct a /\ ColdCache.ids_distinct b /\ cls a /\ cls b /\
   consistentb (decl a) = true /\ k7_shape a = false /\ k7_shape b = false /\
-  chk_C14_pair a b (api_pair a opsa b opsb) = 15.
+  obs_equiv (po_a (api_pair a opsa b opsb)) (po_b (api_pair a opsa b opsb)) = 5 /\
+  k7c_shape a = true /\ chk_C14_pair a b (api_pair a opsa b opsb) = 57.
 Proof.
   exists (pad_tree 1), (pad_tree 2), [OMap true], [].
   destruct (hyps_cls _ _ _ _ (pad_tree_hyps 1)) as [D1 C1]. destruct (hyps_cls _ _ _ _ (pad_tree_hyps 2)) as [D2 C2].
@@ -92,25 +105,33 @@ Proof.
   repeat split; vm_compute; reflexivity.
 Qed.
 
-Theorem D2_refuted_16 : exists (a b : src) (opsa opsb : list hop),
+(* the class is needed: inside it the verdict 57 does occur (the witness above) *)
+Theorem class_needed_pad : exists (a b : src) (opsa opsb : list hop),
   src_eqb a b = true /\ ColdCache.ids_distinct a /\ ColdCache.ids_distinct b /\ cls a /\ cls b /\
-  consistentb (decl a) = true /\ k7_shape a = false /\ k7_shape b = false /\
-  chk_C14_pair a b (api_pair a opsa b opsb) = 16.
+  consistentb (decl a) = true /\ k7c_shape a = true /\
+  chk_C14_pair a b (api_pair a opsa b opsb) = 57.
 Proof.
-  exists (pad_tree 1), (pad_tree 2), [OMap false], [].
-  destruct (hyps_cls _ _ _ _ (pad_tree_hyps 1)) as [D1 C1]. destruct (hyps_cls _ _ _ _ (pad_tree_hyps 2)) as [D2 C2].
-  split; [exact pad_tree_eq|]. split; [exact D1|]. split; [exact D2|]. split; [exact C1|]. split; [exact C2|].
-  repeat split; vm_compute; reflexivity.
+  destruct old_class_too_narrow as [a [b [opsa [opsb [He [Da [Db [Ca [Cb [Hc [_ [_ [_ [K V]]]]]]]]]]]]]].
+  exists a, b, opsa, opsb. split; [exact He|]. split; [exact Da|]. split; [exact Db|]. split; [exact Ca|].
+  split; [exact Cb|]. split; [exact Hc|]. split; [exact K|exact V].
 Qed.
 
-(* D1 as first stated ("0, or 57 inside the K7 class") is false for the same reason *)
-Theorem D1_refuted : ~ (forall (a b : src) (opsa opsb : list hop),
+Theorem D2_needs_class : ~ (forall (a b : src) (opsa opsb : list hop),
+  src_eqb a b = true -> ColdCache.ids_distinct a -> ColdCache.ids_distinct b -> cls a -> cls b ->
+  consistentb (decl a) = true -> chk_C14_pair a b (api_pair a opsa b opsb) = 0).
+Proof.
+  intros H. destruct class_needed_pad as [a [b [opsa [opsb [He [Da [Db [Ca [Cb [Hc [_ V]]]]]]]]]]].
+  rewrite (H a b opsa opsb He Da Db Ca Cb Hc) in V. discriminate.
+Qed.
+
+(* D1 with the FORMER class ("0, or 57 inside k7_shape") is false *)
+Theorem D1_old_class_refuted : ~ (forall (a b : src) (opsa opsb : list hop),
   src_eqb a b = true -> ColdCache.ids_distinct a -> ColdCache.ids_distinct b -> cls a -> cls b ->
   consistentb (decl a) = true ->
   chk_C14_pair a b (api_pair a opsa b opsb) = 0 \/
   (k7_shape a = true /\ chk_C14_pair a b (api_pair a opsa b opsb) = 57)).
 Proof.
-  intros H. destruct D2_refuted as [a [b [opsa [opsb [He [Da [Db [Ca [Cb [Hc [Ka [_ V]]]]]]]]]]]].
+  intros H. destruct old_class_too_narrow as [a [b [opsa [opsb [He [Da [Db [Ca [Cb [Hc [Ka [_ [_ [_ V]]]]]]]]]]]]]].
   destruct (H a b opsa opsb He Da Db Ca Cb Hc) as [E|[E _]].
   - rewrite V in E. discriminate.
   - rewrite Ka in E. discriminate.
@@ -125,30 +146,25 @@ Proof.
   apply D_absent_is_empty; try assumption; vm_compute; reflexivity.
 Qed.
 
-(* and D1_partial says what the strict checker can answer on it *)
-Example pad_partial (opsa opsb : list hop) :
+(* and D1_final says what the checker can answer on it *)
+Example pad_final (opsa opsb : list hop) :
   let v := chk_C14_pair (pad_tree 1) (pad_tree 2) (api_pair (pad_tree 1) opsa (pad_tree 2) opsb) in
-  v = 0 \/ v = 15 \/ v = 16.
+  v = 0 \/ v = 57.
 Proof.
   destruct (hyps_cls _ _ _ _ (pad_tree_hyps 1)) as [D1 C1]. destruct (hyps_cls _ _ _ _ (pad_tree_hyps 2)) as [D2 C2].
-  apply (D2_partial (pad_tree 1) (pad_tree 2) opsa opsb pad_tree_eq D1 D2 C1 C2). vm_compute. reflexivity.
+  destruct (D1_final (pad_tree 1) (pad_tree 2) opsa opsb pad_tree_eq D1 D2 C1 C2) as [H|[_ H]]; [left|right]; exact H.
 Qed.
 
 (* ------------------------------------------------------------------ *)
-(* a widening of the class that covers the witness                      *)
+(* a recorded search                                                    *)
 (* ------------------------------------------------------------------ *)
-(* k7w_shape / k7s_shape: EqDiffAnns.v *)
-Example pad_tree_k7w (i : N) :
-  k7w_shape (pad_tree i) = true /\ k7s_shape (pad_tree i) = true /\ k7c_shape (pad_tree i) = true.
-Proof. vm_compute. repeat split; reflexivity. Qed.
-
-(* a recorded search: 9 leaves (empty / non-empty OriginalSource, RawSource, SourceMapSources with
-   and without contents, with empty text, without mappings, with an unreferenced source, a second
-   content for the same file), shape  x ; Cached (y ; z)  and  x ; Cached (y ; Cached z),
-   every single observer call on one side against no call on the other: whenever the tree is in
-   the class and the verdict is not 0, the tree is in the widened class, and the verdict is
-   15, 16 or 57; and the widened classes (k7w_shape: "maps no chunk"; k7s_shape = k7c_shape:
-   "attributes no text", the one D2_strict is proved for) coincide on every tree of the sample. *)
+(* 9 leaves (empty / non-empty OriginalSource, RawSource, SourceMapSources with and without
+   contents, with empty text, without mappings, with an unreferenced source, a second content for
+   the same file), shape  x ; Cached (y ; z)  and  x ; Cached (y ; Cached z), every single
+   observer call on one side against no call on the other: whenever the tree is in `cls` the
+   verdict is 0, or 57 with the tree in k7c_shape; and the spellings of the class (k7w_shape:
+   "maps no chunk" + content gap; k7s_shape: read off refA; k7c_shape: the checker's) coincide on
+   every tree of the sample. *)
 Definition mk_sm (v mp : text) (ss cs : list text) : src :=
   SMapped v [109] (mkSmap None mp ss cs [] None None) None None false.
 Definition sample_leaves : list src :=
@@ -173,23 +189,23 @@ Definition in_cls (s : src) : bool :=
 Definition sample_ok (t : src) : bool :=
   negb (in_cls t) ||
   Bool.eqb (k7s_shape t) (k7w_shape t) && Bool.eqb (k7c_shape t) (k7w_shape t) &&
+  implb (k7_shape t) (k7c_shape t) &&
   forallb (fun op => let v := chk_C14_pair t t (api_pair t [op] t []) in
-                     (v =? 0) || (k7_shape t && (v =? 57))
-                     || (negb (k7_shape t) && k7w_shape t && ((v =? 15) || (v =? 16)))) sample_ops.
+                     (v =? 0) || (k7c_shape t && (v =? 57))) sample_ops.
 
-Example k7w_covers_sample :
+Example k7c_covers_sample :
   length sample_trees = 1458%nat /\ forallb sample_ok sample_trees = true /\
-  (* the sample is not trivial: trees in the class failing outside K7, trees failing inside K7 *)
+  (* the sample is not trivial: trees of `cls` with verdict 57 outside / inside the former class *)
   length (filter (fun t => in_cls t && negb (k7_shape t) &&
-                           existsb (fun op => negb (chk_C14_pair t t (api_pair t [op] t []) =? 0)) sample_ops)
+                           existsb (fun op => chk_C14_pair t t (api_pair t [op] t []) =? 57) sample_ops)
                  sample_trees) = 24%nat /\
   length (filter (fun t => in_cls t && k7_shape t &&
-                           existsb (fun op => negb (chk_C14_pair t t (api_pair t [op] t []) =? 0)) sample_ops)
+                           existsb (fun op => chk_C14_pair t t (api_pair t [op] t []) =? 57) sample_ops)
                  sample_trees) = 54%nat.
 Proof. vm_compute. repeat split; reflexivity. Qed.
 
 (* ------------------------------------------------------------------ *)
-(* D3: the K7 class is inhabited and yields 57                          *)
+(* D3: the former K7 class is inhabited and yields 57                   *)
 (* ------------------------------------------------------------------ *)
 (* a CachedSource around an empty OriginalSource next to mapped text *)
 Definition k7_tree (i : N) : src := SConcat [sm_nc; SCached i (SOriginal [] [102])].
@@ -197,9 +213,9 @@ Definition k7_tree (i : N) : src := SConcat [sm_nc; SCached i (SOriginal [] [102
 Example k7_tree_hyps (i : N) : hyps (k7_tree i) = (true, false, true, true, true, true, true, true, false).
 Proof. vm_compute. reflexivity. Qed.
 
-Theorem D3_k7_nonempty : exists (a b : src) (opsa opsb : list hop),
+Theorem class_needed_k7 : exists (a b : src) (opsa opsb : list hop),
   src_eqb a b = true /\ ColdCache.ids_distinct a /\ ColdCache.ids_distinct b /\ cls a /\ cls b /\
-  consistentb (decl a) = true /\ k7_shape a = true /\
+  consistentb (decl a) = true /\ k7_shape a = true /\ k7c_shape a = true /\
   chk_C14_pair a b (api_pair a opsa b opsb) = 57.
 Proof.
   exists (k7_tree 1), (k7_tree 2), [OMap true], [OStream true false].
@@ -285,7 +301,7 @@ Qed.
 
 (* the same recomputed for two different histories *)
 Example D4_recomputed :
-  src_eqb (nv_tree 0) (nv_tree 10) = true /\ has_cached (nv_tree 0) = true /\ k7_shape (nv_tree 0) = false /\
+  src_eqb (nv_tree 0) (nv_tree 10) = true /\ has_cached (nv_tree 0) = true /\ k7c_shape (nv_tree 0) = false /\
   chk_C14_pair (nv_tree 0) (nv_tree 10) (api_pair (nv_tree 0) nv_opsa (nv_tree 10) nv_opsb) = 0.
 Proof. vm_compute. repeat split; reflexivity. Qed.
 
@@ -296,29 +312,31 @@ Example D4_w_tree :
   chk_C14_pair w_tree w_tree (api_pair w_tree nv_opsa w_tree nv_opsb) = 0.
 Proof. vm_compute. split; reflexivity. Qed.
 
-(* ... and it is an instance of D2_strict (outside the widened class), for ANY two histories;
+(* ... and it is an instance of D2_final (outside the class), for ANY two histories;
    neither D2_nonempty nor D2_present applies to it *)
 Example D4_w_tree_instance (opsa opsb : list hop) :
   chk_C14_pair w_tree w_tree (api_pair w_tree opsa w_tree opsb) = 0.
 Proof.
   destruct (hyps_cls _ _ _ _ (proj1 D4_w_tree)) as [D1 C1].
-  apply D2_strict; try assumption; vm_compute; reflexivity.
+  apply D2_final; try assumption; vm_compute; reflexivity.
 Qed.
 
 Example D4_w_tree_class :
   k7s_shape w_tree = false /\ k7c_shape w_tree = false /\ k7w_shape w_tree = false /\ presentb (decl w_tree) = false.
 Proof. vm_compute. repeat split; reflexivity. Qed.
 
-(* the K7 witness is inside the widened classes *)
-Example k7_tree_k7s (i : N) : k7s_shape (k7_tree i) = true /\ k7w_shape (k7_tree i) = true.
-Proof. vm_compute. split; reflexivity. Qed.
+(* the K7 witness is inside every spelling of the class *)
+Example k7_tree_k7s (i : N) : k7c_shape (k7_tree i) = true /\ k7s_shape (k7_tree i) = true /\ k7w_shape (k7_tree i) = true.
+Proof. vm_compute. repeat split; reflexivity. Qed.
 
-Print Assumptions D2_refuted.
-Print Assumptions D2_refuted_16.
-Print Assumptions D1_refuted.
+Print Assumptions old_class_too_narrow.
+Print Assumptions class_needed_pad.
+Print Assumptions D2_needs_class.
+Print Assumptions D1_old_class_refuted.
+Print Assumptions pad_final.
 Print Assumptions pad_absent_is_empty.
-Print Assumptions k7w_covers_sample.
-Print Assumptions D3_k7_nonempty.
+Print Assumptions k7c_covers_sample.
+Print Assumptions class_needed_k7.
 Print Assumptions k7_absent_is_empty.
 Print Assumptions k7_present_instance.
 Print Assumptions consistency_needed.
